@@ -4,6 +4,7 @@ import json
 import random
 
 import c03_env
+import c03_imports
 import common as C
 import corpus
 import hist
@@ -142,6 +143,7 @@ def run_job(job):
 def run(rep, tier, seed, proof_ok):
     n_prog = 5 if tier == "quick" and proof_ok else 50
     n_env = c03_env.n_programs(tier)
+    n_imp = c03_imports.n_programs(tier)
     rep.rule = (f"{n_prog} random pipelines x {{PYTHONHASHSEED 0/1/7/random, other working directory, fresh package directory per run, "
                 "store kinds local/memory/noop/local+object-cache, extra_debug off, graph export on, after earlier evaluations and a "
                 "variable change + revert in the same process, source edits that keep the compiled code (comment / default value / decorator path / "
@@ -156,6 +158,18 @@ def run(rep, tier, seed, proof_ok):
                 "must hand the same path -> signature map to the store as the reference (limit 20000, shallow stack, sources in place; its value must equal the "
                 "plain execution of the same text) and return the same value, or fail loudly with no other map synced and no blob stored under a key the reference "
                 "does not assign; plus the "
+                f"import state of the process: {n_imp} programs of 8-10 kept functions (the quick tier deals the whole catalogue over its programs) that bind names inside their bodies otherwise than by assignment (import X / import X as a / "
+                "import X as <name of another module> / import p.sub / import p.sub.deep / from X import f / from p import sub, also where a top-level module of that name exists / "
+                "import of a non-accepted and of a standard-library module / an import in a dead branch / in a helper reached by a call or passed by name / of a module that itself keeps a "
+                "path; parameter of an inner function or of a lambda, name of an inner function, `except ... as` name that coincide with an importable accepted or standard-library module; "
+                "controls: a helper imported at the top of the module, a function without any of these) x "
+                "{fresh process, the same process again (the bodies executed their imports), helper modules imported by unrelated code before / after the module of the pipeline, a random half of "
+                "them imported, imported and then removed from sys.modules before / after the module of the pipeline was imported, after another pipeline of the module that uses some of the helpers" +
+                ("" if tier == "quick" else ", only top-level / only sub-modules / only standard-library modules imported, sub-modules evicted with and without the attribute of the parent "
+                 "package, evicted between two evaluations, PYTHONHASHSEED=random, random import / evict / warm-up sequences") +
+                "}: every evaluation of an entry function must hand the same path -> signature map to the store as its first evaluation in a fresh process (whose value must equal the plain "
+                "execution of the same text with a pass-through stub for dds) and return the same value, or fail loudly with no other map synced and no stray blob; the driver reports which modules "
+                "were in sys.modules before each evaluation (counted); plus the "
                 f"pinned corpus corpus/C03 ({len(corpus.corpus_programs())} programs): implementation and model must reproduce the "
                 "committed signatures byte for byte; distinct = distinct (program, variant); non-trivial = the evaluation keeps at least one path")
     plans = [plan(seed * 1000 + i) for i in range(n_prog)]
@@ -163,6 +177,7 @@ def run(rep, tier, seed, proof_ok):
     with cf.ThreadPoolExecutor(max_workers=C.NPROC) as ex:
         flat_fut = [ex.submit(run_job, j) for j in flat]
         env_started = c03_env.start(tier, seed, ex)
+        imp_started = c03_imports.start(tier, seed, ex)
         flat_res = [f.result() for f in flat_fut]
         corp = ex.submit(corpus.check)
         corp = corp.result()
@@ -260,6 +275,8 @@ def run(rep, tier, seed, proof_ok):
                       "that mentions a function of the same name was analysed earlier in the process", {"signatures_of_/feat": sig_feat, "events": ncs[1][1]})
     # the execution environment of an evaluation (caller stack depth, recursion limit, thread, tracer, source files, ...)
     env_stats = c03_env.finish(rep, env_started)
+    # the import state of the process (function-local imports and names that coincide with importable modules)
+    imp_stats = c03_imports.finish(rep, imp_started)
     npin = 0
     for r in corp:
         rep.case("corpus:" + r["name"], nontrivial=bool(r["pinned"]))
@@ -270,13 +287,16 @@ def run(rep, tier, seed, proof_ok):
         if r["model"] != r["pinned"]:
             rep.violation("model-mismatch:corpus", f"pinned corpus entry {r['name']}: the Coq model no longer reproduces the committed signatures",
                           {"entry": r["name"], "pinned": r["pinned"], "model": r["model"]})
-    rep.extra["input_distribution"] = {"programs": len(plans), "variants": vcount, "corpus_entries": npin, "execution_environments": env_stats}
+    rep.extra["input_distribution"] = {"programs": len(plans), "variants": vcount, "corpus_entries": npin, "execution_environments": env_stats,
+                                       "import_states": imp_stats}
 
 
 def replay(path):
     r = json.load(open(path))["replay"]
     if "exec_env" in r:
         return c03_env.replay(r)
+    if "import_state" in r:
+        return c03_imports.replay(r)
     if "entry" in r:
         res = [x for x in corpus.check() if x["name"] == r["entry"]][0]
         print(json.dumps(res, indent=1))
